@@ -165,7 +165,7 @@ pub fn completion(r: JsResult<JsValue>, ctx: &mut Context) -> String {
     }
 }
 
-fn depths(ctx: &Context) -> Value {
+pub fn depths(ctx: &Context) -> Value {
     let d = boa_engine::verif::vm_depths(ctx);
     json!([d.frames, d.value_stack, d.pending_exception, d.host_call_depth, d.binding_stack, d.environments])
 }
